@@ -8,6 +8,23 @@ from .core import BreakSig, ContinueSig, PathEnd, RaiseSig, Unsupported, fresh_n
 from .values import SV, Arr, PDict, PList, SDict, SList, mk, snapshot, sym, to_z3, zbool
 
 ALL: list = []
+_FINDINGS = None
+
+
+def _open_findings():
+    global _FINDINGS
+    if _FINDINGS is None:
+        import json
+        import os
+
+        path = os.path.join(os.path.dirname(os.path.dirname(os.path.abspath(__file__))), "known_findings.json")
+        _FINDINGS = {}
+        if os.path.exists(path):
+            with open(path) as fh:
+                for f in json.load(fh).get("findings", []):
+                    if f.get("status", "open") == "open":
+                        _FINDINGS[f["id"]] = f
+    return _FINDINGS
 
 
 def register(cls):
@@ -34,6 +51,11 @@ class Ctx:
         self.path.oblige(name, ob_goal, kind=kind, where=self.I.where(), note=note)
         self.path.explorer.obligations[-1].env = self.env
         self.path.explorer.obligations[-1].case = self.case
+
+    def finding_open(self, fid):
+        """True when known_findings.json lists `fid` as an open finding: the contract then splits
+        the affected obligation into the known failing input class and everything else."""
+        return fid in _open_findings()
 
     def int(self, name, lo=None, hi=None):
         v = sym(name, "int")
